@@ -101,6 +101,21 @@ func init() {
 				}
 			}
 		})
+		// bytes that are not UTF-8 (a template is a byte string: Latin-1 text, a truncated rune, a lone
+		// continuation byte, an encoded surrogate) stay as they are, as literal text, inside a string
+		// literal, in a comment tag and next to code
+		for _, b := range []string{"\xff", "caf\xe9 ", "\xc3", "\x80\xfe b", "\xed\xa0\x80", "\xf0\x9f\x98", "ok \xe4\xb8", "a\xffb\xfec"} {
+			for _, tm := range [][2]string{{b, b}, {"<p>" + b + "</p><%= 1 %>", "<p>" + b + "</p>1"}, {"<%= 1 %>" + b + "<% let z = 2 %>" + b, "1" + b + b},
+				{"[<%= \"" + b + "\" %>]", "[" + b + "]"}, {"[<%= `" + b + "<` %>]", "[" + b + "&lt;]"}, {"<%# " + b + " %>[" + b + "]", "[" + b + "]"},
+				{"<%= if (true) { %>" + b + "<% } %>|", b + "|"}, {"<%= for (i) in [1, 2] { %>" + b + "<% } %>", b + b}} {
+				c := RCase{Tmpl: tm[0]}
+				o := e.addRenderCase("not-utf8", c)
+				e.Distinct("u/" + tm[0])
+				if o.Class != "OK" || o.Out != tm[1] {
+					e.Violate("c02-text", fmt.Sprintf("%q rendered %q (%s %s), want %q", tm[0], o.Out, o.Class, o.Msg, tm[1]), map[string]interface{}{"case": c, "observed": o})
+				}
+			}
+		}
 		for _, body := range []string{`a"b`, `""`, `"`, `\"`, `a\"`, `x"y"z`, `%>"<%`, `# "c"`} {
 			tmpl := `[<%= "` + strings.ReplaceAll(body, `"`, `\"`) + `" %>]`
 			c := RCase{Tmpl: tmpl}
